@@ -104,7 +104,7 @@ strlst_addn(struct strlst_s *sl[static 1U], const char *s, size_t n)
 		}
 		res->i = 0U;
 		res->nl = 0U;
-	} else if (z = ilog_ceil_exp(res->i), UNLIKELY(res->i + n + 1U > z)) {
+	} else if (z = ilog_ceil_exp(res->i), UNLIKELY(res->i + n + 1U >= z)) {
 		/* realloc the string pool */
 		const size_t nu_z = ilog_ceil_exp(res->i + n + 1U);
 		char *nu_s;
